@@ -341,7 +341,30 @@ EXTRA3 = {
     "C19": "fail_when_locked in the lock model (conformance trace); H7: the real url_to_file over a response cut after k bytes.",
     "C20": "Inset markers and Onset groups with content in the item menu.",
 }
+EXTRA4 = {
+    "C01": "E2 prefix histories: verdicts on one schema object before / under / after a prefix change; a Def-expand with a "
+           "value its definition does not take.",
+    "C03": "Values with a colon followed by a slash; E2 histories on one live tag; setting the base tag to itself.",
+    "C04": "Def-expand groups written contents-first and unknown Def tags next to sound ones in the reserved family.",
+    "C05": "Multi-valued attributes compared value by value in the XML; a '#' node without takesValue in the edit alphabet.",
+    "C06": "A column whose name is a number, referenced in braces.",
+    "C07": "F9 column swaps, F10 in-place edit histories, F4b delayed positions under every letter case of Delay.",
+    "C08": "Two '#' in one tag; the placeholder faults next to a definition; definition columns among the valid sidecars.",
+    "C09": "Definitions whose sorted sibling order depends on the value filled in.",
+    "C10": "Byte-identical rows in one time point; the same files with warnings requested; Delay in any letter case.",
+    "C11": "The order in which schemas are used in one process (fresh interpreters, forward / reverse).",
+    "C13": "Upper-case prefixes; values with a colon followed by a slash.",
+    "C14": "The duplicate code is SCHEMA_DUPLICATE_NODE for copies inside one section; duplicated placeholders (known finding).",
+    "C16": "A lone sidecar whose only HED keys are misplaced below Levels.",
+    "C17": "Rename maps that swap or chain names; two-column keys whose texts concatenate alike; remap column lists no table "
+           "can satisfy must not validate.",
+    "C18": "A complete backup that loses a recorded copy before a new manager is built.",
+    "C19": "Every history of up to four refresh attempts over the gaps {1 s, T-1, T, 2T} against a one-number model.",
+    "C20": "Distinct processes with identical text; unordered onsets with n/a between them; histories under a namespace.",
+}
 for _k, _v in EXTRA3.items():
+    EXTRA[_k] = EXTRA.get(_k, "") + ("  " if _k in EXTRA else "") + _v
+for _k, _v in EXTRA4.items():
     EXTRA[_k] = EXTRA.get(_k, "") + ("  " if _k in EXTRA else "") + _v
 for _k, _v in EXTRA.items():
     CHECKS[_k]["text"] += "  Extended: " + _v
